@@ -120,8 +120,11 @@ def warm(s):
 class Builder:
     """Builds real schemas from terms and remembers id(object) -> term for what it created."""
 
-    def __init__(self, track=False):
+    def __init__(self, track=False, leave_args=False):
         self.track = track
+        # leave_args: the containers handed to declarations are left as they were (a "polite"
+        # caller) - an independent rebuild made this way must equal the scribbled build
+        self.leave_args = leave_args
         self.ids = {}
         self.keep = []   # keeps tracked objects alive so ids stay unique
 
@@ -153,8 +156,9 @@ class Builder:
                 else:
                     arg = [x if x is E else self.build(x) for x in spec[1]]
                     s = s(arg)
-                    arg.clear()              # the caller's list is the caller's
-                    arg.append(SCRIBBLE)
+                    if not self.leave_args:
+                        arg.clear()          # the caller's list is the caller's
+                        arg.append(SCRIBBLE)
             for c in calls:
                 if WARM:
                     warm(s)
@@ -170,8 +174,9 @@ class Builder:
             if relaxed:
                 d[E] = E
             s = schema.dict(d)
-            d.clear()                        # the caller's dict is the caller's
-            d[SCRIBBLE] = SCRIBBLE
+            if not self.leave_args:
+                d.clear()                    # the caller's dict is the caller's
+                d[SCRIBBLE] = SCRIBBLE
             return self._note(s, t)
         if k == "any":
             if t[1] is None:
@@ -189,12 +194,14 @@ class Builder:
         if k == "native":
             v = _own_copy(t[1])
             s = from_native(v)
-            scribble(v)
+            if not self.leave_args:
+                scribble(v)
             return self._note(s, t)
         if k == "subst":
             v = _own_copy(t[2])
             s = substitute(self.build(t[1]), v)
-            scribble(v)
+            if not self.leave_args:
+                scribble(v)
             return self._note(s, t)
         if k == "ualias":
             from . import fwdtype
@@ -209,10 +216,10 @@ def build(t):
     return Builder().build(t)
 
 
-def try_build(t):
+def try_build(t, leave_args=False):
     """(schema, None) or (None, exception)."""
     try:
-        return build(t), None
+        return Builder(leave_args=leave_args).build(t), None
     except Exception as e:  # noqa: BLE001 - the caller classifies it
         return None, e
 
